@@ -1726,6 +1726,71 @@ class Inliner:
             target = st.targets[0].id
         delegated = isinstance(st, ast.Expr) and \
             isinstance(st.value, ast.YieldFrom) and st.value.value is call
+        if _is_generator(helper) and isinstance(st, ast.For) and \
+                st.iter is call and not st.orelse:
+            # for T in gen(args): BODY -- a generator that is one loop with
+            # one yield: its loop, with `T = <yielded>; BODY` where it yields
+            # (break leaves that loop, which is all the generator does)
+            try:
+                pre, gbody = _instantiate(helper, kind, call, idents, tag)
+            except _Site:
+                return [st]
+            if len(gbody) != 1 or not isinstance(gbody[0], ast.For) or \
+                    gbody[0].orelse:
+                return [st]
+            loop = gbody[0]
+            ys = [x for x in ast.walk(loop)
+                  if isinstance(x, (ast.Yield, ast.YieldFrom))]
+            inner_loops = [x for x in ast.walk(loop) if x is not loop and
+                           isinstance(x, (ast.For, ast.While))]
+            if len(ys) != 1 or not isinstance(ys[0], ast.Yield) or \
+                    ys[0].value is None or any(
+                        ys[0] in list(ast.walk(x)) for x in inner_loops):
+                return [st]
+            ynames = {x.id for x in ast.walk(loop) if isinstance(x, ast.Name)}
+            tnames = {x.id for x in ast.walk(st.target)
+                      if isinstance(x, ast.Name)}
+            bnames = {x.id for b in st.body for x in ast.walk(b)
+                      if isinstance(x, ast.Name) and
+                      isinstance(x.ctx, (ast.Store, ast.Del))}
+            if (tnames | bnames) & ynames:
+                return [st]
+            placed = [False]
+            has_continue = any(isinstance(x, ast.Continue)
+                               for b in st.body for x in ast.walk(b))
+
+            def put(stmts, tail):
+                out = []
+                for k_, s2 in enumerate(stmts):
+                    last = tail and k_ == len(stmts) - 1
+                    if isinstance(s2, ast.Expr) and s2.value is ys[0]:
+                        if has_continue and not last:
+                            return None
+                        out.append(ast.copy_location(ast.Assign(
+                            targets=[st.target], value=ys[0].value,
+                            lineno=st.lineno), st))
+                        out.extend(st.body)
+                        placed[0] = True
+                        continue
+                    for name in ('body', 'orelse'):
+                        blk = getattr(s2, name, None)
+                        if isinstance(blk, list) and blk and \
+                                isinstance(blk[0], ast.stmt) and \
+                                not isinstance(s2, (ast.FunctionDef,
+                                                    ast.ClassDef)):
+                            new = put(blk, last and isinstance(s2, ast.If))
+                            if new is None:
+                                return None
+                            setattr(s2, name, new)
+                    out.append(s2)
+                return out
+            new_body = put(loop.body, True)
+            if new_body is None or not placed[0]:
+                return [st]
+            loop.body = new_body
+            ast.copy_location(loop, st)
+            done.add(id(call))
+            return pre + [loop]
         if _is_generator(helper) and not delegated:
             return [st]     # a generator is only written out under yield from
         if delegated and not _is_generator(helper):
@@ -3858,6 +3923,27 @@ class _DictFlows(ast.NodeTransformer):
                     target=ig.target, iter=ig.iter,
                     ifs=list(ig.ifs) + [sub.visit(i_) for i_ in g.ifs],
                     is_async=0)]), node)
+        return node
+
+    def visit_Assign(self, node):
+        """a, b = (E1, E2)  ->  a = E1; b = E2   when neither expression
+        reads a or b (what a written-out `for a, b in gen()` leaves)."""
+        self.generic_visit(node)
+        if len(node.targets) == 1 and \
+                isinstance(node.targets[0], ast.Tuple) and \
+                isinstance(node.value, ast.Tuple) and \
+                len(node.targets[0].elts) == len(node.value.elts) >= 2 and \
+                all(isinstance(t, ast.Name) for t in node.targets[0].elts) \
+                and not any(isinstance(v, ast.Starred)
+                            for v in node.value.elts):
+            names = {t.id for t in node.targets[0].elts}
+            if len(names) == len(node.targets[0].elts) and not (names & {
+                    x.id for v in node.value.elts for x in ast.walk(v)
+                    if isinstance(x, ast.Name)}):
+                self.count += 1
+                return [ast.copy_location(ast.Assign(
+                    targets=[t], value=v, lineno=node.lineno), node)
+                    for t, v in zip(node.targets[0].elts, node.value.elts)]
         return node
 
     def visit_For(self, node):
